@@ -168,6 +168,10 @@ def check_mutator(rep: Report, rule: str, prog: Program, cm: ClassModel, ci: Cla
                 if st is not None:
                     pos = st.positional_params()
                     calls.append((st, {pos[1]: val} if len(pos) > 1 else {}, f"self.{attr} = ... (setter)"))
+            # builtin lookups that raise on a missing key: self.<table>[k] (load / del), self.<table>.pop(k), self.<coll>.remove(x)
+            for cond, desc in _builtin_raise_conditions(f, e):
+                if not discharged(cfg, n, cond):
+                    R.setdefault(n, f"{desc} when {cnorm(cond)[:90]}")
             for g, args, desc in calls:
                 gs = cm.summary(ci, g)
                 if gs.writes:
@@ -194,6 +198,24 @@ def check_mutator(rep: Report, rule: str, prog: Program, cm: ClassModel, ci: Cla
                f"{R[r]} after the object was already modified at " + '; '.join(f"{cfg.describe(w)} [{W[w]}]" for w in ws[:3])
                + ": a failing call leaves the object changed",
                trace={'writes': [cfg.describe(w) for w in ws], 'raise': cfg.describe(r)})
+
+
+def _builtin_raise_conditions(f: FuncInfo, e: ast.AST) -> List[Tuple[ast.AST, str]]:
+    selfn = f.self_name()
+    out: List[Tuple[ast.AST, str]] = []
+
+    def is_self_attr(x: ast.AST) -> bool:
+        return isinstance(x, ast.Attribute) and isinstance(x.value, ast.Name) and x.value.id == selfn
+
+    def missing(k: ast.AST, tab: ast.AST) -> ast.AST:
+        return ast.Compare(left=k, ops=[ast.NotIn()], comparators=[tab])
+    for x in ast.walk(e):
+        if isinstance(x, ast.Subscript) and isinstance(x.ctx, (ast.Load, ast.Del)) and is_self_attr(x.value) and not isinstance(x.slice, ast.Slice):
+            out.append((missing(x.slice, x.value), f"{norm(x)} raises KeyError"))
+        if isinstance(x, ast.Call) and isinstance(x.func, ast.Attribute) and is_self_attr(x.func.value) and x.args:
+            if x.func.attr == 'remove' or (x.func.attr == 'pop' and len(x.args) == 1 and not x.keywords):
+                out.append((missing(x.args[0], x.func.value), f"{norm(x)} raises KeyError/ValueError"))
+    return out
 
 
 def discharged(cfg: CFG, call_node: int, cond: Optional[ast.AST]) -> bool:
